@@ -46,7 +46,7 @@ class C08(Check):
         self.rec.unwrap_all()
 
     def budget(self, tier):
-        k = 1 if tier == 'quick' else 30
+        k = 1 if tier == 'quick' else 80
         return {'random': 1400 * k, 'explicit_bkpt': 400 * k, 'everyn': 300 * k, 'tiny': 200 * k, 'everyn_degenerate': 40 * k}
 
     # ------------------------------------------------------------------ gen
